@@ -1,3 +1,4 @@
+import Txtpp.Lemmas.ConcreteCoord
 import Txtpp.Lemmas.Term
 import Txtpp.Lemmas.CoordScanInv
 import Txtpp.Lemmas.SeenClosure
@@ -89,5 +90,20 @@ theorem files_found_by_scanning_once (w : ScanWorld) (files : List File) (ds : L
     (∀ a, Task.pp a false ∈ x.st.pool → ∀ d ∈ w.deps a, d ∈ x.st.dm.fin) :=
   ⟨(file_part_inv w files ds x h).seenND, (file_part_inv w files ds x h).poolND,
    (file_part_inv w files ds x h).finND, (file_part_inv w files ds x h).secondDeps⟩
+
+/-! ### the concrete run (real passes over the model file system) -/
+
+/-- results that depend on the file system at the moment of the pass (what the real preprocessor
+delivers) do not leave the abstract model: every execution of the coordinator with free, well-typed
+results is an execution for a static world that tabulates exactly the results delivered - each task is
+delivered at most once. So every theorem above applies to the concrete run as well. -/
+theorem free_results_are_some_world (inputs : List File) (s : St) (hist : List (Task × Res)) (h : FReach inputs s hist) :
+    ∃ w : World, Reach w inputs s ∧ ∀ t r, (t, r) ∈ hist → w.result t = r :=
+  freach_reach inputs s hist h
+
+/-- the concrete whole run `Txtpp::run` (input resolution, scans, coordinator, real passes) never ends in
+the coordinator's panic branch -/
+theorem whole_run_never_panics (cfg : Txt.Cfg) (fs : Txt.FS) (inputs : List (List Char)) :
+    (Txt.runProject cfg fs inputs).1 ≠ .panic := Txt.runProject_never_panics cfg fs inputs
 
 end C03
